@@ -128,6 +128,7 @@ const (
 	LexerBuiltinOperator
 	LexerRuneLit
 	LexerRuneEscaped
+	LexerHexEscape
 )
 
 type Lexer struct {
@@ -146,6 +147,11 @@ type Lexer struct {
 
 	priori    int
 	priorRune [20]rune
+
+	hexWant   int        // hex digits still expected in a \x \u \U escape
+	hexAcc    rune       // value so far
+	hexByte   bool       // \xHH denotes a byte
+	hexReturn LexerState // state to return to
 }
 
 func (lexer *Lexer) AppendToken(tok Token) {
@@ -277,6 +283,12 @@ func EscapeChar(char rune) (rune, error) {
 		return '\a', nil
 	case 't':
 		return '\t', nil
+	case 'b':
+		return '\b', nil
+	case 'f':
+		return '\f', nil
+	case 'v':
+		return '\v', nil
 	case '\\':
 		return '\\', nil
 	case '"':
@@ -287,6 +299,24 @@ func EscapeChar(char rune) (rune, error) {
 		return '#', nil
 	}
 	return ' ', errors.New("invalid escape sequence")
+}
+
+// startHexEscape begins a \xHH, \uHHHH or \UHHHHHHHH escape (as printed by strconv.Quote).
+func (lexer *Lexer) startHexEscape(r rune, back LexerState) bool {
+	switch r {
+	case 'x':
+		lexer.hexWant, lexer.hexByte = 2, true
+	case 'u':
+		lexer.hexWant, lexer.hexByte = 4, false
+	case 'U':
+		lexer.hexWant, lexer.hexByte = 8, false
+	default:
+		return false
+	}
+	lexer.hexAcc = 0
+	lexer.hexReturn = back
+	lexer.state = LexerHexEscape
+	return true
 }
 
 func DecodeChar(atom string) (string, error) {
@@ -542,7 +572,34 @@ top:
 		lexer.buffer.WriteRune(r)
 		return nil
 
+	case LexerHexEscape:
+		var d rune
+		switch {
+		case r >= '0' && r <= '9':
+			d = r - '0'
+		case r >= 'a' && r <= 'f':
+			d = r - 'a' + 10
+		case r >= 'A' && r <= 'F':
+			d = r - 'A' + 10
+		default:
+			return errors.New("invalid escape sequence")
+		}
+		lexer.hexAcc = lexer.hexAcc*16 + d
+		lexer.hexWant--
+		if lexer.hexWant == 0 {
+			if lexer.hexByte {
+				lexer.buffer.WriteByte(byte(lexer.hexAcc))
+			} else {
+				lexer.buffer.WriteRune(lexer.hexAcc)
+			}
+			lexer.state = lexer.hexReturn
+		}
+		return nil
+
 	case LexerStrEscaped:
+		if lexer.startHexEscape(r, LexerStrLit) {
+			return nil
+		}
 		char, err := EscapeChar(r)
 		if err != nil {
 			return err
@@ -567,6 +624,9 @@ top:
 		return nil
 
 	case LexerRuneEscaped:
+		if lexer.startHexEscape(r, LexerRuneLit) {
+			return nil
+		}
 		char, err := EscapeChar(r)
 		if err != nil {
 			return err
